@@ -185,6 +185,8 @@ impl World {
         let r = match name.as_str() {
             "set" => self.op_set(&op),
             "fault" => self.op_fault(&op),
+            "copy" => self.op_copy(&op),
+            "assert.eq" => self.op_assert(&op),
             n if n.starts_with("sm2.") => crate::ops_sm2::exec(self, n, &op),
             n if n.starts_with("zuc.") => crate::ops_zuc::exec(self, n, &op),
             n if n.starts_with("sm9.") => crate::ops_sm9::exec(self, n, &op),
@@ -210,6 +212,33 @@ impl World {
     fn op_set(&mut self, op: &Value) -> R<Value> {
         let b = hex::decode(gs(op, "hex")?).map_err(|e| e.to_string())?;
         self.put(gs(op, "slot")?, b);
+        Ok(json!({}))
+    }
+
+    /// End-of-session oracle on slots: slot `a` must exist and equal slot `b` (or the literal
+    /// `hex`). Part of the schedule, so that replays and minimised schedules re-evaluate it.
+    fn op_assert(&mut self, op: &Value) -> R<Value> {
+        let a = self.slots.get(gs(op, "a")?).cloned();
+        let b = match gs_opt(op, "hex") {
+            Some(h) => Some(hex::decode(h).map_err(|e| e.to_string())?),
+            None => self.slots.get(gs(op, "b")?).cloned(),
+        };
+        let property = gs(op, "property")?.to_string();
+        let oracle = gs(op, "oracle")?.to_string();
+        let what = gs_opt(op, "what").unwrap_or("").to_string();
+        let case = fnv(&[b"assert", op.to_string().as_bytes(), &a.clone().unwrap_or_default(), &b.clone().unwrap_or_default()]);
+        let key = json!({"entry": gs_opt(op, "entry").unwrap_or("session"), "class": gs_opt(op, "class").unwrap_or("any"), "outcome": "Ok"});
+        let ok = a.is_some() && a == b;
+        self.check(&property, &oracle, ok, case, key, || {
+            format!("{what}: got {} want {}", a.as_ref().map(hex::encode).unwrap_or("<nothing>".into()), b.as_ref().map(hex::encode).unwrap_or("<nothing>".into()))
+        });
+        Ok(json!({"ok": ok}))
+    }
+
+    /// A party keeps its own copy of something it received (storage slot).
+    fn op_copy(&mut self, op: &Value) -> R<Value> {
+        let v = self.slot(gs(op, "from")?)?;
+        self.put(gs(op, "to")?, v);
         Ok(json!({}))
     }
 
